@@ -69,4 +69,5 @@ VARIANTS = [
     {"name": "twin-guard-clauses-in-preserve-ordering", "rule": "R6.25", "file": VISITORS,
      "old": "    # The order of a namedtuple's fields should always be preserved.\n    return IsNamedTuple(node)\n",
      "new": "    if IsNamedTuple(node):\n      return True\n    return False\n", "expect": "silent"},
+    {"name": "twin-benign-C04-r2", "rule": "R6.25", "patch": "benign/C04-r2/patch.diff", "expect": "silent"},
 ]
